@@ -409,7 +409,11 @@ def handle (st : DState) (line : String) : DState × String :=
         | _ => none
       let arrs := as.filterMap fun t =>
         match t.splitOn "=" with
-        | [n, vs] => ((vs.splitOn ",").mapM String.toInt?).map fun l => (n, l)
+        | [nb, vs] =>
+          let (n, b) := match nb.splitOn ":" with
+            | [n, b] => (n, (b.toNat?).getD 8)
+            | _ => (nb, 8)
+          ((vs.splitOn ",").mapM String.toInt?).map fun l => (n, b, l)
         | _ => none
       let funs := fns.mapM fun ts =>
         match ts with
@@ -422,7 +426,7 @@ def handle (st : DState) (line : String) : DState × String :=
          match CSem.runMain m funs fuel s0 with
          | .ok _ s1 =>
            (st, "ok " ++ " ".intercalate (s1.vars.map fun p => p.1 ++ "=" ++ toString p.2.2) ++ " / " ++
-                " ".intercalate (s1.arrs.map fun p => p.1 ++ "=" ++ ",".intercalate (p.2.map toString)))
+                " ".intercalate (s1.arrs.map fun p => p.1 ++ "=" ++ ",".intercalate (p.2.2.map toString)))
          | .undef w => (st, "undef " ++ hexStr w)
          | .fuel => (st, "fuel"))
     | _, _ => (st, "badreq")
